@@ -400,15 +400,14 @@ def check_ttinfo(ctx, rule):
     from .rules_common import value_set
     cfg = ctx.cfg(rt)
     got = {}
+    recs = set()
     for n in cfg.live_nodes():
         if n.kind == "stmt" and isinstance(n.ast, ast.Assign) and isinstance(n.ast.targets[0], ast.Attribute) and src(n.ast.targets[0].value) == "tti":
             vals = value_set(ctx, rt, n, n.ast.value, stop=lambda v: any(isinstance(y, ast.Call) and src(y.func) in ("struct.unpack", "fileobj.read") for y in ast.walk(v)))
             got.setdefault("tti." + n.ast.targets[0].attr, set()).update(norm(v) for v in vals)
-    recs = set()
-    for vs in got.values():
-        for v in vs:
-            for m_ in re.finditer(r"(\w+)\[i\]\[([012])\]", v):
-                recs.add(m_.group(1))
+            for v in vals:
+                for m_ in re.finditer(r"\b(\w+)\[i\]\[([012])\]", v):
+                    recs.add(m_.group(1))
     R = sorted(recs)[0] if len(recs) == 1 else "ttinfo"
     want = {"tti.offset": "_get_supported_offset%s[i][0]" % R, "tti.delta": "datetime.timedeltaseconds=_get_supported_offset%s[i][0]" % R, "tti.isdst": "%s[i][1]" % R,
             "tti.abbr": norm("abbr[%s[i][2]:abbr.find('\\x00', %s[i][2])]" % (R, R)), "tti.isstd": norm("ttisstdcnt > i and isstd[i] != 0"),
@@ -432,10 +431,26 @@ def check_ttinfo(ctx, rule):
            detail="" if (len(srcs_) == 1 and holders == {R}) else "unpack sites=%d holders=%s records read from %s" % (len(srcs_), sorted(holders), R))
     ctx.ob(rule, rt, "each transition refers to its ttinfo by index", "out.trans_idx = [out.ttinfo_list[idx] for idx in out.trans_idx]" in src(rt.node), construct="trans_idx mapping")
     # the period before the first transition: the first standard type, else the first type
-    t = norm(src(rt.node))
+    facts = ctx.facts(rt)
+    bstores = [n for n in cfg.live_nodes() if n.kind == "stmt" and isinstance(n.ast, ast.Assign) and any(
+        isinstance(t_, ast.Attribute) and t_.attr == "ttinfo_before" for t_ in n.ast.targets) and not (isinstance(n.ast.value, ast.Constant) and n.ast.value.value is None)]
+    std_pick = [n for n in bstores if isinstance(n.ast.value, ast.Name) and any(
+        (not tv) and t.endswith(".isdst") and t.split(".")[0] == n.ast.value.id for t, tv in facts.at(n))]
+    fallback = [n for n in bstores if n not in std_pick]
+    ok_pick = len(std_pick) == 1 and all(isinstance(s_.ast, ast.Break) for s_, lab in std_pick[0].succ if lab == "next")
+    ok_loop = ok_pick and any(m.kind == "for" and src(m.ast.iter).endswith(".ttinfo_list") and m.ast.target.id == std_pick[0].ast.value.id and std_pick[0] in cfg.reach([m])
+                              for m in cfg.live_nodes() if m.kind == "for" and isinstance(m.ast.target, ast.Name))
+    ok_fb = len(fallback) == 1 and src(fallback[0].ast.value).endswith(".ttinfo_list[0]") and \
+        (std_pick and (std_pick[0] in cfg.reach([fallback[0]]) or fallback[0] not in cfg.reach(std_pick)))
     ctx.ob(rule, rt, "before the first transition the first standard-time type applies (the first type when all are daylight)",
-           "forttiinout.ttinfo_list:ifnottti.isdst:out.ttinfo_before=ttibreakelse:out.ttinfo_before=out.ttinfo_list[0]" in t, construct="ttinfo_before selection")
-    ctx.ob(rule, rt, "with no transitions the single first type is the zone's standard time", "ifnotout.trans_list_utc:out.ttinfo_std=out.ttinfo_first=out.ttinfo_list[0]" in t, construct="no-transition zone")
+           bool(ok_pick and ok_loop and ok_fb), construct="ttinfo_before selection",
+           detail="" if (ok_pick and ok_loop and ok_fb) else "standard pick: %s; fallback: %s" % ([stmt_text(n) for n in std_pick], [stmt_text(n) for n in fallback]),
+           analysis="must-hold branch facts + CFG successor (first match wins)")
+    nz = [n for n in cfg.live_nodes() if n.kind == "stmt" and isinstance(n.ast, ast.Assign) and any(isinstance(t_, ast.Attribute) and t_.attr == "ttinfo_std" for t_ in n.ast.targets)
+          and src(n.ast.value).endswith(".ttinfo_list[0]")]
+    ok_nz = len(nz) == 1 and any((not tv) and t.endswith(".trans_list_utc") for t, tv in facts.at(nz[0])) and any(
+        isinstance(t_, ast.Attribute) and t_.attr == "ttinfo_first" for t_ in nz[0].ast.targets)
+    ctx.ob(rule, rt, "with no transitions the single first type is the zone's standard time", ok_nz, construct="no-transition zone", analysis="must-hold branch facts")
 
 
 def check_lookup(ctx, rule):
